@@ -772,6 +772,16 @@ impl ZmtpEngine {
       }
 
       let is_more = msg.is_more();
+      // FrameBatch holds at most 255 frames; a longer multipart message is a protocol
+      // violation by the peer, not a reason to panic the connection task.
+      if self.partial_batch.len() >= 255 {
+        self.partial_batch = FrameBatch::new();
+        self.fail(
+          out,
+          ZmqError::ProtocolViolation("multipart message exceeds 255 frames".into()),
+        );
+        return;
+      }
       self.partial_batch.push(msg);
       if !is_more {
         let batch = std::mem::replace(&mut self.partial_batch, FrameBatch::new());
